@@ -1130,8 +1130,16 @@ class Literal(Variable[T]):
     ):
         original_data = data
         data = [data]
-        if not type_ and not hasattr(original_data, "__next__"):
-            # the type is taken from the first element; a one-shot iterator is left untouched (it would be consumed).
+        if (
+            not type_
+            and not hasattr(original_data, "__next__")
+            and (
+                not is_iterable(original_data)
+                or isinstance(original_data, (list, tuple, set, frozenset, dict))
+            )
+        ):
+            # the type is taken from the first element; a one-shot iterator is left untouched (it would be consumed), and
+            # so is any other user defined iterable (iterating it calls the user's code while the expression is built).
             original_data_lst = make_list(original_data)
             first_value = original_data_lst[0] if len(original_data_lst) > 0 else None
             type_ = type(first_value) if first_value is not None else None
